@@ -161,6 +161,15 @@ def build(thorough):
                 ops.append({"op": "raw_close", "raw": nm, "rst": mode != "close"})
             evil.append({"name": "evil%d" % j, "ops": ops})
         scs.append(hub_scenario("hub-pull-tcp-burst-%s" % mode, "PULL", "PUSH", "tcp", evil))
+    # --- a storm: enough short-lived connections to overrun the context's event bus (256 entries)
+    evil = []
+    for j in range(8):
+        ops = []
+        for i in range(80):
+            nm = "s%d_%d" % (j, i)
+            ops += [{"op": "raw_connect", "raw": nm, "ep": "$ep"}, {"op": "raw_write", "raw": nm, "hex": H(b"\x00" * 12)}, {"op": "raw_close", "raw": nm, "rst": True}]
+        evil.append({"name": "evil%d" % j, "ops": ops})
+    scs.append(hub_scenario("hub-pull-tcp-storm", "PULL", "PUSH", "tcp", evil))
     # --- real rzmq sockets of an incompatible type, over every transport
     for tr in ["tcp", "ipc", "inproc"]:
         for et in (["REQ", "SUB", "PULL"] if thorough else ["REQ"]):
